@@ -105,6 +105,7 @@ def tok(b):
 
 # ---------------------------------------------------------------------------- histories
 BG = b"zbg"
+ACC = b"zacc"
 D1 = {b"x": ["n", 1.0]}
 D2 = {b"x": ["n", 2.0]}
 
@@ -145,14 +146,21 @@ class Hist:
         self._note(self.vids, t)
 
     def probe(self, vid=None, eid=None, label=None, graph=None):
-        if vid is not None:
-            self._note(self.vids, vid)
-        if eid is not None:
-            self._note(self.eids, eid)
-        if label is not None:
-            self._note(self.labels, label)
+        """look something up that the history did not write into the graph under test.  Lookups are only
+        judged for identifiers a write call accepts: the identifier is therefore also written, as another
+        element, into the separate graph ACC, and trace_line drops the probes whose write was refused."""
         if graph is not None:
             self._note(self.graphs, graph)
+            return
+        if ACC not in self.graphs:
+            self.add_graph(ACC)
+        n = len(self.calls)
+        if vid is not None:
+            self.vertex(ACC, vid, b"ACC", {})
+        if eid is not None:
+            self.edge(ACC, eid, b"ACCK", b"zp1", b"zp2", {})
+        if label is not None:
+            self.vertex(ACC, b"zacc%d" % n, label, {})
 
     def request(self, i):
         def call(c):
@@ -340,8 +348,15 @@ def value_histories(vals):
 
 # ---------------------------------------------------------------------------- traces for TLC
 def trace_line(i, h, o):
+    # identifiers that some write call of the history accepted (in any role): only these are looked up
+    okstr = set()
+    for c, r in zip(h.calls, o["results"]):
+        if r["res"] == "ok":
+            okstr.update(c[k] for k in ("id", "label", "from", "to") if k in c)
+
     def tl(lst):
-        return [tok(x) for x in lst]
+        return [tok(x) for x in lst if x in okstr]
+    okhex = {x.hex() for x in okstr}
     calls = []
     for c, r in zip(h.calls, o["results"]):
         t = dict(op=c["op"], g=tok(c["g"]), res=("ok" if r["res"] == "ok" else "error"))
@@ -358,9 +373,11 @@ def trace_line(i, h, o):
             t.setdefault("id", "-")
         calls.append(t)
 
-    def rows(lst, datapos=()):
+    def rows(lst, datapos=(), probed=False):
         out = []
         for r in lst or []:
+            if probed and r and r[0] not in okhex:
+                continue
             row = []
             for n, x in enumerate(r):
                 if n in datapos or isinstance(x, list):
@@ -381,10 +398,11 @@ def trace_line(i, h, o):
             if "panic" in ob:
                 e["obs"] = dict(panic=ob["panic"])
             else:
-                e["obs"] = dict(V=rows(ob["V"]), E=rows(ob["E"]), getV=rows(ob["getV"]), getE=rows(ob["getE"]),
+                e["obs"] = dict(V=rows(ob["V"]), E=rows(ob["E"]), getV=rows(ob["getV"], probed=True), getE=rows(ob["getE"], probed=True),
                                 vlabels=[tok(x) for x in ob["vlabels"]], elabels=[tok(x) for x in ob["elabels"]],
-                                byLabel=rows(ob["byLabel"]), hasLabel=rows(ob["hasLabel"]), outE=rows(ob["outE"]), inE=rows(ob["inE"]),
-                                nout=rows(ob["out"]), nin=rows(ob["in"]), render=rows(ob["render"]))
+                                byLabel=rows(ob["byLabel"], probed=True), hasLabel=rows(ob["hasLabel"], probed=True),
+                                outE=rows(ob["outE"], probed=True), inE=rows(ob["inE"], probed=True),
+                                nout=rows(ob["out"], probed=True), nin=rows(ob["in"], probed=True), render=rows(ob["render"]))
         graphs.append(e)
     return dict(i=i, calls=calls, vids=tl(h.vids), eids=tl(h.eids), labels=tl(h.labels),
                 render=[[tok(i_), tok(n)] for g, i_, n in h.render],
@@ -453,7 +471,12 @@ def run(ctx):
 
     # ---------------------------------------------------------------- 3. crashes, then trace validation by TLC
     def sig(h, what):
-        return "keyenc %s[%s]: %s" % (h.role, h.feat, what)
+        # one signature per root cause where the cause is known from the construction of the history
+        if "sep" in h.feat.split("+"):
+            return "keyenc identifiers containing the separator byte 0x00 are accepted (aliased, truncated or unreadable keys)"
+        if "invalid-utf8" in h.feat.split("+"):
+            return "keyenc identifiers that are not valid UTF-8 are accepted but not stored"
+        return "keyenc %s[%s]: %s" % (h.role.split("(")[0], h.feat, what)
     traces = []
     accepted = refused = 0
     for i, h in enumerate(hs):
